@@ -25,9 +25,9 @@ class Frame:
     def __init__(s, fn): s.fn = fn; s.lab = None; s.idx = 0; s.prev = None; s.loc = {}; s.ret_to = None; s.allocas = []; s.loopcnt = {}
 
 class State:
-    def __init__(s): s.frames = []; s.objs = {}; s.pc = []; s.nextobj = 1; s.inputs = []; s.steps = 0; s.exc = None; s.model = None; s.obs = []; s.mfs = {}
+    def __init__(s): s.frames = []; s.objs = {}; s.pc = []; s.nextobj = 1; s.inputs = []; s.steps = 0; s.exc = None; s.model = None; s.obs = []; s.mfs = {}; s.sbind = {}
     def fork(s):
-        n = State(); n.mf = getattr(s, 'mf', None); n.model = None; n.obs = list(s.obs); n.mfs = {k: dict(v) for k, v in s.mfs.items()}
+        n = State(); n.mf = getattr(s, 'mf', None); n.model = None; n.obs = list(s.obs); n.mfs = {k: dict(v, data=list(v['data']), ios=list(v['ios'])) for k, v in s.mfs.items()}; n.sbind = s.sbind
         if hasattr(s, 'errno_obj'): n.errno_obj = s.errno_obj
         n.objs = {k: v for k, v in s.objs.items()}   # copy-on-write at object level
         n.cow = set(n.objs.keys())
@@ -267,9 +267,19 @@ class Exec:
                     x = struct.unpack('<d', struct.pack('<Q', v))[0] if t.k == 'double' else struct.unpack('<f', struct.pack('<I', v))[0]
                     return s.fpconst(x, t)
                 raise Violation('unsupported', 'int->float reinterpretation in real mode', None)
-            bvv = s.bv(v, 64 if t.k == 'double' else 32)
-            return z3.fpBVToFP(bvv, z3.Float64() if t.k == 'double' else z3.Float32())
+            # ieee mode: a double that is only moved around stays a raw bit pattern (exact pass-through, NaN payloads included);
+            # it becomes a FloatingPoint term at the first arithmetic use (fpv)
+            if isinstance(v, Ptr): v = s.ptr_as_int(v)
+            w = 64 if t.k == 'double' else 32
+            if isc(v): return z3.BitVecVal(v, w)
+            if z3.is_bool(v): return s.bv(v, w)
+            return v if v.size() == w else z3.Extract(w - 1, 0, v)
         return v
+
+    def fpv(s, v):
+        if s.fpmode == 'real' or z3.is_fp(v): return v
+        if isc(v): raise Exception('raw int as fp value')
+        return z3.fpBVToFP(v, z3.Float64() if v.size() == 64 else z3.Float32())
 
     def load_val(s, st, p, t):
         t = s.res(t)
@@ -296,6 +306,8 @@ class Exec:
                 return Ptr(a.obj, s.ite(c, a.off, b.off))
             raise Violation('unsupported', 'ite over pointers to different objects', None)
         if isinstance(a, tuple): return ('agg', [s.ite(c, x, y) for x, y in zip(a[1], b[1])])
+        if (not isc(a) and not isinstance(a, bool) and z3.is_fp(a)) != (not isc(b) and not isinstance(b, bool) and z3.is_fp(b)):
+            a = s.fpv(a) if not isc(a) else a; b = s.fpv(b) if not isc(b) else b
         if isinstance(a, bool) or z3.is_bool(a) or isinstance(b, bool) or z3.is_bool(b):
             return z3.simplify(z3.If(c, s.zb(a), s.zb(b)))
         if isc(a) and isc(b):
@@ -357,12 +369,59 @@ class Exec:
         if extra is not None: s.solver.add(extra)
         r = s.solver.check()
         mdl = s.solver.model() if r == z3.sat else None
+        if r == z3.unknown:
+            r, mdl = s.fallback_cvc5(st)
         s.solver.pop()
         dt = time.time() - t0
         s.stats['solver_s'] += dt
         if dt > s.stats['max_query_s']: s.stats['max_query_s'] = dt
         if r == z3.unknown: raise Violation('inconclusive', 'solver returned unknown (%s)' % s.solver.reason_unknown(), st)
         return mdl
+    def fallback_cvc5(s, st):
+        """z3 gave up (bit-vector division / multiplication by constants): re-decide the same query with cvc5's integer encoding of
+        bit-vectors (--solve-bv-as-int=sum keeps the mod 2^k semantics).  unsat is taken from cvc5; a sat answer is turned back into a z3 model
+        by asserting cvc5's values for the inputs and re-checking with z3, so the model used for replay is always z3-validated."""
+        import subprocess, tempfile, os, re as _re
+        s.stats['cvc5_queries'] = s.stats.get('cvc5_queries', 0) + 1
+        smt = _re.sub(r'(bv[su](?:div|rem|mod))_i', r'\1', s.solver.to_smt2())   # z3-internal names for division by a non-zero divisor
+        ins = [i for i in st.inputs if z3.is_bv(i) or z3.is_bool(i)]
+        smt = smt.replace('(check-sat)', '(check-sat)\n' + ''.join('(get-value (%s))\n' % i.sexpr() for i in ins))
+        fd, path = tempfile.mkstemp(suffix='.smt2'); os.write(fd, ('(set-option :produce-models true)\n(set-logic ALL)\n' + smt).encode()); os.close(fd)
+        # portfolio: cvc5 with the integer encoding of bit-vectors, and the stand-alone z3 5.1 with a long budget; first definitive answer wins
+        lim = getattr(s, 'qtimeout2', 120000)
+        procs = [subprocess.Popen(['cvc5', '--solve-bv-as-int=sum', '--tlimit=%d' % lim, path], stdout=subprocess.PIPE, stderr=subprocess.STDOUT, text=True),
+                 subprocess.Popen(['z3-new', '-T:%d' % (lim // 1000), path], stdout=subprocess.PIPE, stderr=subprocess.STDOUT, text=True)]
+        out = ''; t1 = time.time()
+        try:
+            live = list(procs)
+            while live and time.time() - t1 < lim / 1000 + 20:
+                for pr in list(live):
+                    if pr.poll() is not None:
+                        live.remove(pr); o = pr.stdout.read()
+                        if o.strip().split('\n')[0] in ('sat', 'unsat'): out = o; live = []; break
+                time.sleep(0.05)
+        finally:
+            for pr in procs:
+                if pr.poll() is None: pr.kill()
+            os.unlink(path)
+        head = out.strip().split('\n')[0] if out.strip() else ''
+        errs = [l for l in out.split('\n') if '(error' in l and 'Cannot get value unless after a SAT' not in l and 'model is not available' not in l]
+        if errs: return z3.unknown, None
+        if head == 'unsat': s.stats['cvc5_unsat'] = s.stats.get('cvc5_unsat', 0) + 1; return z3.unsat, None
+        if head == 'sat':
+            s.solver.push()
+            try:
+                for i in ins:
+                    m = _re.search(r'\(\(' + _re.escape(i.sexpr()) + r' (#b[01]+|#x[0-9a-fA-F]+|true|false)\)\)', out)
+                    if not m: continue
+                    v = m.group(1)
+                    if v in ('true', 'false'): s.solver.add(i == (v == 'true'))
+                    else: s.solver.add(i == z3.BitVecVal(int(v[2:], 2 if v[1] == 'b' else 16), i.size()))
+                r = s.solver.check()
+                return (r, s.solver.model()) if r == z3.sat else (z3.unknown, None)
+            finally: s.solver.pop()
+        return z3.unknown, None
+
     def assume(s, st, c):
         st.pc.append(c)
         if st.model is not None:
@@ -378,7 +437,24 @@ class Exec:
             g = s.m.globals[n]
             if n.startswith('llvm.'): continue
             size = s.sizeof(g['ty']) if s.res(g['ty']).k != 'opaque' else 8
+            if g['init'] is None and n.startswith('_ZTI'):
+                # external std::type_info object (fundamental / library type): {vptr, const char* __name}
+                oid = s.new_obj(st, 16, n, kind='zero'); s.gobj[n] = oid
+                nm = n[4:].encode() + b'\0'
+                noid = s.new_obj(st, len(nm), 'typeinfo-name ' + n, kind='zero')
+                for i, ch in enumerate(nm): st.objs[noid].cells[i] = (1, ch)
+                st.objs[oid].cells[8] = (8, Ptr(noid, 0))
+                continue
             oid = s.new_obj(st, max(size, 1), n, kind='zero'); s.gobj[n] = oid
+            if g['init'] is None and n.startswith('_ZTT'):
+                # external VTT of a libstdc++ stream class: entries point at fake vtables that carry the virtual-base offset
+                vb = {'ostringstream': 112, 'istringstream': 120, 'stringstream': 128, 'ofstream': 248, 'ifstream': 256, 'fstream': 264}
+                off = next((v for k, v in sorted(vb.items(), key=lambda kv: -len(kv[0])) if k in n), 0)
+                cnt = max(size // 8, 1)
+                vt = s.new_obj(st, 64 * cnt, 'fake-vtable-for-' + n, kind='zero')
+                for k in range(cnt):
+                    st.objs[vt].cells[64 * k] = (8, off if k == 0 else 0)
+                    st.objs[oid].cells[8 * k] = (8, Ptr(vt, 64 * k + 24))
         for n in s.m.gorder:
             g = s.m.globals[n]
             if n.startswith('llvm.') or g['init'] is None: continue
@@ -458,6 +534,7 @@ class Exec:
         fr.prev = fr.lab; fr.lab = target; fr.idx = len(vals)
 
     def branch(s, st, fr, cond, a, b, work):
+        cond = s.tobool(cond)
         if isinstance(cond, bool):
             s.jump(st, fr, a if cond else b); return
         cond = z3.simplify(cond)
@@ -479,7 +556,7 @@ class Exec:
         if op in BIN:
             L[d] = s.binop(st, op, x['ty'], s.val(st, x['a']), s.val(st, x['b']))
         elif op in ('fadd', 'fsub', 'fmul', 'fdiv'):
-            a = s.val(st, x['a']); b = s.val(st, x['b'])
+            a = s.fpv(s.val(st, x['a'])); b = s.fpv(s.val(st, x['b']))
             if s.fpmode == 'real':
                 # real mode: x/0 is z3's total, functional but otherwise arbitrary value (stands for inf/NaN):
                 # an assertion that depends on such a quotient fails, one that does not is unaffected
@@ -488,11 +565,11 @@ class Exec:
                 rm = z3.RNE()
                 L[d] = {'fadd': z3.fpAdd, 'fsub': z3.fpSub, 'fmul': z3.fpMul, 'fdiv': z3.fpDiv}[op](rm, a, b)
         elif op == 'fneg':
-            a = s.val(st, x['a']); L[d] = -a if s.fpmode == 'real' else z3.fpNeg(a)
+            a = s.fpv(s.val(st, x['a'])); L[d] = -a if s.fpmode == 'real' else z3.fpNeg(a)
         elif op == 'icmp':
             L[d] = s.icmp(st, x['pred'], x['opty'], s.val(st, x['a']), s.val(st, x['b']))
         elif op == 'fcmp':
-            a = s.val(st, x['a']); b = s.val(st, x['b']); p = x['pred']
+            a = s.fpv(s.val(st, x['a'])); b = s.fpv(s.val(st, x['b'])); p = x['pred']
             if s.fpmode == 'real':
                 L[d] = {'oeq': a == b, 'ueq': a == b, 'one': a != b, 'une': a != b, 'ogt': a > b, 'ugt': a > b, 'oge': a >= b, 'uge': a >= b,
                         'olt': a < b, 'ult': a < b, 'ole': a <= b, 'ule': a <= b, 'ord': z3.BoolVal(True), 'uno': z3.BoolVal(False)}[p]
@@ -548,7 +625,7 @@ class Exec:
                 srt = z3.Float64() if x['ty'].k == 'double' else z3.Float32()
                 L[d] = z3.fpSignedToFP(z3.RNE(), s.bv(v, sw), srt) if op == 'sitofp' else z3.fpUnsignedToFP(z3.RNE(), s.bv(v, sw), srt)
         elif op in ('fptosi', 'fptoui'):
-            v = s.val(st, x['a']); w = x['ty'].bits
+            v = s.fpv(s.val(st, x['a'])); w = x['ty'].bits
             if s.fpmode == 'real':
                 v = z3.simplify(v)
                 if z3.is_rational_value(v):
@@ -561,7 +638,7 @@ class Exec:
             else:
                 L[d] = z3.fpToSBV(z3.RTZ(), v, z3.BitVecSort(w)) if op == 'fptosi' else z3.fpToUBV(z3.RTZ(), v, z3.BitVecSort(w))
         elif op in ('fpext', 'fptrunc'):
-            v = s.val(st, x['a'])
+            v = s.fpv(s.val(st, x['a']))
             L[d] = v if s.fpmode == 'real' else z3.fpFPToFP(z3.RNE(), v, z3.Float64() if x['ty'].k == 'double' else z3.Float32())
         elif op == 'select':
             c = s.val(st, x['c']); a = s.val(st, x['a']); b = s.val(st, x['b'])
@@ -744,7 +821,8 @@ class Exec:
             s.store_val(st, p, PTR(I8), Ptr(p.obj, p.off + 16)); s.store_val(st, Ptr(p.obj, p.off + 8), I64, 0); s.store_val(st, Ptr(p.obj, p.off + 16), I8, 0)
             if nxt is not None: s.jump(st, fr, nxt)
             return
-        if f is not None and f['blocks'] is not None:
+        import cxxrt
+        if f is not None and f['blocks'] is not None and name not in cxxrt.FORCED:
             s.call_fn(st, name, args, (d if x['ty'].k != 'void' else None, nxt, x.get('unwind'))); return
         try:
             r = s.builtin(st, fr, name, args, x, work)
@@ -755,6 +833,14 @@ class Exec:
         if d is not None and x['ty'].k != 'void': L[d] = r
         if nxt is not None: s.jump(st, fr, nxt)
 
+    def fork_ret(s, st, x, cond, retval, work, post=None):
+        """fork a successor of a builtin call: path condition += cond, call result = retval"""
+        o = st.fork(); o.pc.append(cond); fr = o.frames[-1]
+        if x['dst'] is not None and x['ty'].k != 'void': fr.loc[x['dst']] = retval
+        if post is not None: post(o)
+        if x.get('normal') is not None: s.jump(o, fr, x['normal'])
+        work.append(o); s.stats['forks'] += 1
+
     def fresh(s, st, name, w):
         s.nondet_n += 1
         v = z3.BitVec('%s_%d' % (name, len(st.inputs)), w) if w else None
@@ -764,6 +850,8 @@ class Exec:
         if name.startswith('llvm.lifetime') or name.startswith('llvm.experimental.noalias') or name.startswith('llvm.assume') or name in ('__cxa_atexit',): return 0
         if name.startswith('nondet_'):
             w = x['ty'].bits
+            if w == 1:
+                v = z3.Bool('in%d_%s' % (len(st.inputs), name[7:])); st.inputs.append(v); return v
             v = z3.BitVec('in%d_%s' % (len(st.inputs), name[7:]), w); st.inputs.append(v); return v
         if name == 'nondet_double' or name == 'verif_nondet_double':
             pass
@@ -831,6 +919,8 @@ class Exec:
             w = 32 if name.endswith('32') else 64; v = a[0]
             if isc(v): return int.from_bytes(v.to_bytes(w // 8, 'little'), 'big')
             return z3.simplify(z3.Concat(*[z3.Extract(8 * i + 7, 8 * i, v) for i in range(w // 8)]))
+        if name.startswith('llvm.fmuladd') or name.startswith('llvm.fabs') or name in LIBM or (name.startswith('llvm.') and name.endswith('.f64') and name[5:-4] in LIBM):
+            a = [s.fpv(v) for v in a]
         if name.startswith('llvm.fmuladd'):
             return a[0] * a[1] + a[2] if s.fpmode == 'real' else z3.fpAdd(z3.RNE(), z3.fpMul(z3.RNE(), a[0], a[1]), a[2])
         if name.startswith('llvm.fabs'):
@@ -878,18 +968,14 @@ class Exec:
             if not hasattr(st, 'errno_obj') or st.errno_obj not in st.objs:
                 st.errno_obj = s.new_obj(st, 4, 'errno', kind='zero')
             return Ptr(st.errno_obj, 0)
-        if name == 'strtol':
-            # contract stub: arbitrary result, arbitrary number of consumed characters within the C string
-            p = a[0]; ln = 0
+        if name == 'strcmp':
+            i = 0
             while True:
-                b = s.load_val(st, Ptr(p.obj, p.off + ln), I8)
-                if isc(b) and b == 0: break
-                ln += 1
-                if ln > 64: raise Violation('bound', 'strtol argument longer than 64', st)
-            k = z3.BitVec('strtol_k_%d' % len(st.inputs), 64); v = z3.BitVec('strtol_v_%d' % len(st.inputs), 64)
-            st.inputs.append(k); st.inputs.append(v); s.assume(st, z3.ULE(k, ln))
-            if a[1].obj != 0: s.store_val(st, a[1], PTR(I8), Ptr(p.obj, z3.simplify(s.bv(p.off, 64) + k)))
-            return v
+                c1 = s.load_val(st, Ptr(a[0].obj, a[0].off + i), I8); c2 = s.load_val(st, Ptr(a[1].obj, a[1].off + i), I8)
+                if not (isc(c1) and isc(c2)): raise Violation('unsupported', 'strcmp over symbolic bytes', st)
+                if c1 != c2: return 1 if c1 > c2 else 0xffffffff
+                if c1 == 0: return 0
+                i += 1
         if name == 'strlen':
             p = a[0]; o = s.check_access(st, p, 1, 'strlen'); i = 0
             while True:
@@ -917,19 +1003,9 @@ class Exec:
             p = a[0]; return p.obj
         if re.match(r'_ZNSt\d+(runtime_error|invalid_argument|logic_error|out_of_range|length_error)(C|D)[12]E', name): return 0
         if name.startswith('_ZN3Opm6OpmLog'): return 0
-        if name == 'verif_memfile':
-            n = a[0]; st.mf = dict(data=[z3.BitVec('file_%d' % i, 8) for i in range(n)], pos=0, fail=False)
-            st.inputs.extend(st.mf['data'])
-            return Ptr(s.new_obj(st, 1024, 'fstream', kind='zero'), 0)
-        if name == '_ZNSi4readEPcl':
-            n = a[2]; mf = st.mf; buf = a[1]
-            if not isc(n): raise Violation('unsupported', 'symbolic read length', st)
-            avail = max(0, min(n, len(mf['data']) - mf['pos']))
-            for i in range(avail): s.store_val(st, Ptr(buf.obj, buf.off + i), I8, mf['data'][mf['pos'] + i])
-            if avail < n: mf['fail'] = True
-            mf = dict(mf); mf['pos'] += avail; st.mf = mf
-            return a[0]
-        if name == 'verif_memfile_failed': return 1 if st.mf['fail'] else 0
+        import cxxrt
+        r = cxxrt.builtin(s, st, fr, name, a, x, work)
+        if r is not cxxrt.NOT: return r
         raise Violation('unsupported', 'external function ' + name, st)
 
 class PathEnd(Exception): pass
@@ -962,13 +1038,13 @@ def main():
     ap = argparse.ArgumentParser()
     ap.add_argument('ll'); ap.add_argument('entry')
     ap.add_argument('--fp', default='real'); ap.add_argument('--maxsteps', type=int, default=400000); ap.add_argument('--loopmax', type=int, default=64)
-    ap.add_argument('--json'); ap.add_argument('--timeout', type=float, default=0); ap.add_argument('--qtimeout', type=int, default=60000)
+    ap.add_argument('--json'); ap.add_argument('--timeout', type=float, default=0); ap.add_argument('--qtimeout', type=int, default=15000); ap.add_argument('--qtimeout2', type=int, default=120000)
     ap.add_argument('--allow-uncaught', action='store_true')
     a = ap.parse_args()
     t0 = time.time()
     m = parse_module(open(a.ll).read())
     ex = Exec(m, a.fp, a.maxsteps, a.loopmax)
-    ex.solver.set('timeout', a.qtimeout)
+    ex.solver.set('timeout', a.qtimeout); ex.qtimeout2 = a.qtimeout2
     ex.deadline = t0 + a.timeout if a.timeout else None
     ex.allow_uncaught = a.allow_uncaught
     status = 'OK'; v = None; results = []; allsamples = []; per_entry = {}
@@ -991,7 +1067,7 @@ def main():
     st = ex.stats
     out = dict(status=status, entry=a.entry, fp=a.fp, paths=st['paths'], outcomes=dict(Counter(results)), forks=st['forks'], queries=st['queries'],
                cache_hits=st['cache_hits'], solver_s=round(st['solver_s'], 3), max_query_s=round(st['max_query_s'], 3), steps=st['steps'], wall_s=round(dt, 3),
-               bound_hits=st['bound_hits'], loopmax=a.loopmax, maxsteps=a.maxsteps,
+               cvc5_queries=st.get('cvc5_queries', 0), cvc5_unsat=st.get('cvc5_unsat', 0), bound_hits=st['bound_hits'], loopmax=a.loopmax, maxsteps=a.maxsteps,
                functions=sorted(st['funcs']), stubs=sorted(st['stubs']), assert_sites_total=nsites, assert_sites_reached=len(st['assert_sites']),
                assert_checks=st['assert_checks'], samples=ex.samples[:8], per_entry=per_entry)
     if v is not None:
@@ -1006,4 +1082,5 @@ def main():
         print('at', out['violation']['stack'])
 
 if __name__ == '__main__':
-    main()
+    import llsym   # run under the module name so that cxxrt's 'from llsym import Ptr' sees the same classes
+    llsym.main()
